@@ -66,6 +66,7 @@ type Exec struct {
 	Mismatches      []Mismatch
 	Reopens         int
 	Deletes         int
+	DeletedSamples  int
 	DeletesRefused  int
 	GCs             int
 	reopened        bool
@@ -354,7 +355,7 @@ func (e *Exec) doDelete(i int, op Op) bool {
 		return false
 	}
 	for _, k := range op.Chans {
-		e.Model.Delete(k, op.A, op.B)
+		e.DeletedSamples += e.Model.Delete(k, op.A, op.B)
 	}
 	return true
 }
